@@ -277,3 +277,10 @@ def setcomp(src: str, seq: SV, result_elem_ty) -> SV:
     sty = TSet(result_elem_ty)
     f = ufn(f"setcomp_{key}_{_san(seq.ty.name)}", seq.ty.sort(), sty.sort())
     return SV(f(seq.t), sty)
+
+
+def list_elems(L: SV) -> SV:
+    """set of the elements of a TList (ghost view; facts are added where lists are built)"""
+    sty = TSet(L.ty.elem)
+    f = ufn("elems_" + _san(L.ty.name), L.ty.sort(), sty.sort())
+    return SV(f(L.t), sty)
